@@ -61,8 +61,8 @@ Proof.
   all: try (intros; reflexivity).
   all: try (destruct (Nat.eqb_spec j i) as [->|Hne]; [|apply E1]).
   all: nsimpl; try (intros; discriminate); try (apply E1).
+  all: try (intros X; apply (E1 i); destruct (st (nd s i)); congruence).   (* WSkipExec, WFinish *)
   - (* LMark *) intros X. match type of M with _ = Some ?m => destruct (dep_mark_values c s d m M); subst m; discriminate end.
-  - (* WFinish *) intros X. apply (E1 i). destruct (st (nd s i)); congruence.
   - (* SigNode *)
     match goal with |- context [j =? ?k] => destruct (Nat.eqb_spec j k) as [->|Hne]; [|apply E1] end. nsimpl. discriminate.
 Qed.
@@ -444,72 +444,25 @@ Proof.
 Qed.
 
 (* ---------------------------------------------------------------------------------------------- *)
-(* F5c: a stop that lands between the loop's checks and the worker's own cancel test                *)
+(* "finished" means the command ran and its last attempt succeeded - also in a stopped run.         *)
+(* (Before fix ac08004 this was false: a step the loop had committed when the stop arrived was       *)
+(*  launched afterwards, skipped its command and was reported finished - F5c.)                       *)
 (* ---------------------------------------------------------------------------------------------- *)
-(* a "clean" stop: at the instant the flag is set no node is committed (loop between its cancel/capacity checks and
-   the flip to running, e.g. evaluating a slow precondition) and no worker is between its creation and its own cancel
-   test.  The excluded class is decidable on the execution. *)
-Definition stop_ok (s : state) : bool :=
-  (match pc s with LCommitted _ => false | _ => true end) &&
-  forallb (fun i => match ph (nd s i) with PSetup => false | _ => true end) (seq 0 n).
-
-Fixpoint run_clean (s : state) (ls : list label) : option state :=
-  match ls with
-  | [] => Some s
-  | l :: ls' =>
-      if (match l with SigFlag => negb (stop_ok s) | _ => false end) then None
-      else match step s l with Some s' => run_clean s' ls' | None => None end
-  end.
-
-Lemma run_clean_run ls : forall s s', run_clean s ls = Some s' -> run c s ls = Some s'.
-Proof.
-  induction ls as [|l ls IH]; simpl; intros s s' H; [exact H|].
-  destruct (match l with SigFlag => negb (stop_ok s) | _ => false end); [discriminate|].
-  destruct (step s l); [auto|discriminate].
-Qed.
-
 Definition hdtrue (x : node) : Prop := exists fs, outs x = true :: fs.
 
-Record SCInv (s : state) : Prop := {
-  sc1 : canceled s = true -> forall i, pc s <> LCommitted i;
-  sc2 : canceled s = true -> forall i, i < n -> ph (nd s i) <> PSetup;
-  sc3 : forall i, ph (nd s i) = PEnded true -> dry c = false -> hdtrue (nd s i);
-  sc4 : forall i, ph (nd s i) = PPost -> st (nd s i) = NRunning -> dry c = false -> hdtrue (nd s i);
-  sc5 : forall i, st (nd s i) = NSuccess -> dry c = false -> hdtrue (nd s i)
+Record RInv (s : state) : Prop := {
+  r3 : forall i, ph (nd s i) = PEnded true -> dry c = false -> hdtrue (nd s i);
+  r4 : forall i, ph (nd s i) = PPost -> st (nd s i) = NRunning -> dry c = false -> hdtrue (nd s i);
+  r5 : forall i, st (nd s i) = NSuccess -> dry c = false -> hdtrue (nd s i)
 }.
 
-Lemma scinv_init : SCInv (init c).
+Lemma rinv_init : RInv (init c).
 Proof. constructor; cbn; intros; discriminate. Qed.
 
-Lemma sc_step1 s l s' : Inv s -> SCInv s -> (l = SigFlag -> stop_ok s = true) -> step s l = Some s' ->
-  canceled s' = true -> forall j, pc s' <> LCommitted j.
-Proof.
-  intros HI HSC Hok Hs Hc j. pose proof (sc1 _ HSC) as S1.
-  start_step HI Hs; try (apply S1; assumption); try discriminate; try congruence.
-  specialize (Hok eq_refl). unfold stop_ok in Hok. apply andb_true_iff in Hok. destruct Hok as [Hok _].
-  destruct (pc s); try discriminate; congruence.
-Qed.
-
-Lemma sc_step2 s l s' : Inv s -> SCInv s -> (l = SigFlag -> stop_ok s = true) -> step s l = Some s' ->
-  canceled s' = true -> forall j, j < n -> ph (nd s' j) <> PSetup.
-Proof.
-  intros HI HSC Hok Hs Hc j Hj. pose proof (sc1 _ HSC) as S1. pose proof (sc2 _ HSC) as S2.
-  start_step HI Hs; try (apply S2; assumption); try congruence.
-  all: try (destruct (Nat.eqb_spec j i) as [->|Hne]; [|apply S2; assumption]); nsimpl; try discriminate.
-  all: try (rewrite ?M; discriminate).
-  all: try (apply S2; assumption).
-  - (* LLaunch in a canceled run: excluded *) exfalso. apply is_committed_eq in H. exact (S1 Hc i H).
-  - (* WRepeatWake *) exfalso. specialize (HA i). unfold coherent in HA. rewrite M in HA. exact HA.
-  - (* SigFlag *) specialize (Hok eq_refl). unfold stop_ok in Hok. apply andb_true_iff in Hok. destruct Hok as [_ Hok].
-    pose proof (forallb_seq_lt _ _ Hok j Hj) as X. cbv beta in X. destruct (ph (nd s j)); try discriminate; congruence.
-  - match goal with |- context [j =? ?k] => destruct (Nat.eqb_spec j k) as [->|Hne]; [|apply S2; assumption] end.
-    nsimpl. apply S2; assumption.
-Qed.
-
-Lemma sc_step3 s l s' : Inv s -> SCInv s -> step s l = Some s' ->
+Lemma r_step3 s l s' : Inv s -> RInv s -> step s l = Some s' ->
   forall j, ph (nd s' j) = PEnded true -> dry c = false -> hdtrue (nd s' j).
 Proof.
-  intros HI HSC Hs j. pose proof (sc3 _ HSC) as S3.
+  intros HI HSC Hs j. pose proof (r3 _ HSC) as S3.
   start_step HI Hs; try (apply S3).
   all: try (destruct (Nat.eqb_spec j i) as [->|Hne]; [|apply S3]); nsimpl; try (intros; discriminate); try (rewrite ?M; intros; discriminate).
   all: try (apply S3).
@@ -518,26 +471,28 @@ Proof.
   - match goal with |- context [j =? ?k] => destruct (Nat.eqb_spec j k) as [->|Hne]; [|apply S3] end. nsimpl. apply S3.
 Qed.
 
-Lemma sc_step4 s l s' : Inv s -> SCInv s -> step s l = Some s' ->
+Lemma r_step4 s l s' : Inv s -> RInv s -> step s l = Some s' ->
   forall j, ph (nd s' j) = PPost -> st (nd s' j) = NRunning -> dry c = false -> hdtrue (nd s' j).
 Proof.
-  intros HI HSC Hs j. pose proof (sc2 _ HSC) as S2. pose proof (sc3 _ HSC) as S3. pose proof (sc4 _ HSC) as S4.
+  intros HI HSC Hs j. pose proof (r3 _ HSC) as S3. pose proof (r4 _ HSC) as S4.
   start_step HI Hs; try (apply S4).
   all: try (destruct (Nat.eqb_spec j i) as [->|Hne]; [|apply S4]); nsimpl; try (intros; discriminate); try (rewrite ?M; intros; discriminate).
   all: try (apply S4).
+  all: try (intros _ X; destruct (st (nd s i)); discriminate).     (* WSkipExec: running -> canceled *)
   - (* LMark *) intros _ X. subst. destruct (dep_mark_values c s d _ M); discriminate.
-  - (* WSkipExec: needs a canceled run with a worker before its cancel test *) intros _ _ _. exfalso. exact (S2 H0 i H M).
   - (* WAfter ok *) intros _ _ Hd. unfold hdtrue. nsimpl. apply S3; assumption.
   - match goal with |- context [j =? ?k] => destruct (Nat.eqb_spec j k) as [->|Hne]; [|apply S4] end. nsimpl. intros; discriminate.
 Qed.
 
-Lemma sc_step5 s l s' : Inv s -> SCInv s -> step s l = Some s' ->
+Lemma r_step5 s l s' : Inv s -> RInv s -> step s l = Some s' ->
   forall j, st (nd s' j) = NSuccess -> dry c = false -> hdtrue (nd s' j).
 Proof.
-  intros HI HSC Hs j. pose proof (sc4 _ HSC) as S4. pose proof (sc5 _ HSC) as S5.
+  intros HI HSC Hs j. pose proof (r4 _ HSC) as S4. pose proof (r5 _ HSC) as S5.
   start_step HI Hs; try (apply S5).
   all: try (destruct (Nat.eqb_spec j i) as [->|Hne]; [|apply S5]); nsimpl; try (intros; discriminate); try (apply S5).
   all: try (specialize (HA i); unfold coherent in HA; rewrite ?M in HA; intros X; exfalso; intuition congruence).
+  all: try (specialize (HA i); unfold coherent in HA; rewrite ?M in HA; intros X; exfalso;
+            destruct (st (nd s i)); try discriminate; intuition congruence).          (* WSkipExec *)
   - (* LMark *) intros X. subst. destruct (dep_mark_values c s d _ M); discriminate.
   - (* WFinish *) unfold hdtrue. nsimpl. destruct (st (nd s i)) eqn:Est; try (intros; discriminate).
     + intros _ Hd. apply (S4 i M Est Hd).
@@ -545,34 +500,28 @@ Proof.
   - match goal with |- context [j =? ?k] => destruct (Nat.eqb_spec j k) as [->|Hne]; [|apply S5] end. nsimpl. intros; discriminate.
 Qed.
 
-Lemma scinv_step s l s' : Inv s -> SCInv s -> (l = SigFlag -> stop_ok s = true) -> step s l = Some s' -> SCInv s'.
+Lemma rinv_step s l s' : Inv s -> RInv s -> step s l = Some s' -> RInv s'.
 Proof.
-  intros HI HSC Hok Hs. constructor.
-  - eapply sc_step1; eauto.
-  - eapply sc_step2; eauto.
-  - eapply sc_step3; eauto.
-  - eapply sc_step4; eauto.
-  - eapply sc_step5; eauto.
+  intros HI HSC Hs. constructor.
+  - eapply r_step3; eauto.
+  - eapply r_step4; eauto.
+  - eapply r_step5; eauto.
 Qed.
 
-Lemma run_clean_inv ls : forall s s', Inv s -> SCInv s -> run_clean s ls = Some s' -> Inv s' /\ SCInv s'.
+Lemma reach_rinv s : Reach c s -> RInv s.
 Proof.
-  induction ls as [|l ls IH]; simpl; intros s s' HI HSC Hr; [injection Hr as <-; auto|].
-  destruct (match l with SigFlag => negb (stop_ok s) | _ => false end) eqn:Eg; [discriminate|].
-  destruct (step s l) as [s1|] eqn:Hs; [|discriminate].
-  eapply IH; [| |exact Hr].
-  - eapply inv_step; eauto.
-  - eapply scinv_step; eauto. intros ->. apply negb_false_iff in Eg. exact Eg.
+  intros [ls Hr]. revert Hr. generalize (inv_init c) rinv_init. generalize (init c).
+  induction ls as [|l ls IH]; simpl; intros s0 HI HE Hr.
+  - injection Hr as <-. auto.
+  - destruct (step s0 l) eqn:Hs; [|discriminate]. eapply IH; [| |exact Hr].
+    + eapply inv_step; eauto.
+    + eapply rinv_step; eauto.
 Qed.
 
-(* C04, partial (F5c excluded): in every execution all of whose stop requests are clean, a step reported finished did
-   run and its last attempt succeeded - "succeeded" means completed, also in a stopped run *)
-Theorem finished_means_ran_partial ls s : run_clean (init c) ls = Some s -> dry c = false ->
+(* C04: in every reachable state - stopped or not - a step reported finished did run and its last attempt succeeded *)
+Theorem finished_means_ran s : Reach c s -> dry c = false ->
   forall i, st (nd s i) = NSuccess -> exists fs, outs (nd s i) = true :: fs.
-Proof.
-  intros Hr Hd i Hs. destruct (run_clean_inv ls (init c) s (inv_init c) scinv_init Hr) as [_ HSC].
-  exact (sc5 _ HSC i Hs Hd).
-Qed.
+Proof. intros Hr Hd i Hs. exact (r5 _ (reach_rinv s Hr) i Hs Hd). Qed.
 
 End Stop.
 
